@@ -92,6 +92,38 @@ def _replay(ctx):
         asyncio.set_event_loop(None)
 
 
+def _apalache(ctx, tmp):
+    """Unbounded-counter argument: Apalache discharges the inductive invariant IndInv of SessionCounters
+    (initiation, consecution, IndInv => NoNonceReuse /\\ AcceptOnceInOrder) for IP, BLE and CoAP-with-forward, and
+    must REFUTE consecution when the reset / rewind heuristics are enabled."""
+    import shutil as _sh
+    import subprocess
+    import time
+    from harness.common import MachineryError
+    if not _sh.which("apalache-mc"):
+        ctx.notes["apalache"] = "apalache-mc not found: inductive-invariant obligations skipped"
+        return
+    spec = os.path.join(SPEC, "session", "MC_SessionCountersInd.tla")
+    jobs = [("initiation", "--cinit=ConstInit --init=Init --inv=IndInv --length=0", True),
+            ("consecution", "--cinit=ConstInit --init=IndInit --inv=IndInv --next=Next --length=1", True),
+            ("implies NoNonceReuse and AcceptOnceInOrder", "--cinit=ConstInit --init=IndInit --inv=Safety --length=0", True),
+            ("sanity: not inductive with reset", "--cinit=ConstInitReset --init=IndInit --inv=IndInv --next=Next --length=1", False),
+            ("sanity: not inductive with rewind", "--cinit=ConstInitRewind --init=IndInit --inv=IndInv --next=Next --length=1", False)]
+    out = []
+    for name, args, want_ok in jobs:
+        t0 = time.time()
+        p = subprocess.run(["apalache-mc", "check", *args.split(), f"--out-dir={tmp}/apa", spec], capture_output=True, text=True,
+                           timeout=900, cwd=os.path.dirname(spec))
+        ok = "The outcome is: NoError" in p.stdout
+        err = "The outcome is: Error" in p.stdout
+        if not ok and not err:
+            raise MachineryError(f"apalache obligation '{name}' gave no verdict:\n{p.stdout[-1500:]}")
+        if ok != want_ok:
+            raise MachineryError(f"apalache obligation '{name}': expected {'NoError' if want_ok else 'Error'}, got {'NoError' if ok else 'Error'}")
+        out.append({"obligation": name, "outcome": "NoError" if ok else "Error (as required)", "wall_s": round(time.time() - t0, 1)})
+    ctx.notes["apalache_inductive_invariant"] = out
+
+
 def run(ctx):
     from harness import c06_driver as D
     if ctx.replay:
@@ -100,6 +132,7 @@ def run(ctx):
                 "abandon, re-key, CoAP events}; TLC explores them to a depth bound per transport; executions of the real layers "
                 "are TLC behaviours + seeded random histories; distinct by recorded event sequence; non-trivial if >= 1 delivery")
     ctx.assume("AEAD is ideal (a message verifies only under its own key and counter)",
+               "the Apalache inductive-invariant obligations quantify over states with at most 4 history entries (Gen(4)); counters and epochs are unbounded",
                "IP is driven at the protocol object (stub transport), BLE at the key objects used by _write_pdu/_read_pdu, "
                "CoAP at EncryptionContext.post_bytes / EventResource.render_put with a stub aiocoap context",
                "CoAP 'forward' resynchronisation (skipping dropped responses) is not a violation: still once and in order")
@@ -110,12 +143,13 @@ def run(ctx):
     try:
         # ---------------- (A)
         for t in ("IP", "BLE", "COAP"):
-            ctx.tlc("session/SessionCounters", f"SessionCounters_{t}.cfg", label=f"{t}: exhaustive to depth bound",
+            ctx.tlc("session/SessionCounters_MC", f"SessionCounters_{t}.cfg", label=f"{t}: exhaustive to depth bound",
                     ignore_cover=("AccProduceEvent", "DeliverEvent") if t != "COAP" else ())
+        _apalache(ctx, tmp)
         # ---------------- (A') the two recorded CoAP findings: still in the model, still on the real code
         for sig, cfg, prop in ((SIG_REWIND, "SessionCounters_COAP_rewind.cfg", "AcceptOnceInOrder"),
                                (SIG_RESET, "SessionCounters_COAP_resetnonce.cfg", "NoNonceReuse")):
-            res = ctx.tlc("session/SessionCounters", cfg, expect_violation=True, require_cover=False, coverage=False,
+            res = ctx.tlc("session/SessionCounters_MC", cfg, expect_violation=True, require_cover=False, coverage=False,
                           label=f"deviation {sig}: TLC must find the counterexample")
             if res.ok:
                 ctx.notes[f"{sig}_model"] = "no counterexample found (deviation no longer violates the model)"
